@@ -252,8 +252,8 @@ func (a *c19Alias) doStep() bool {
 			a.push(r.dec)
 			appended = true
 			a.st.Appended++
-			if fn, msg := c19FollowUps(a.pool[len(a.pool)-1].d, resR); fn != "" {
-				a.report("C19/followup-"+fn+"/panic", fmt.Sprintf("%s on the result of %s panicked: %s", fn, name, msg))
+			for _, v := range c19FollowUps(a.pool[len(a.pool)-1].d, resR) {
+				a.report(v.class, fmt.Sprintf("on the result of %s: %s", name, v.detail))
 			}
 		}
 	} else {
@@ -271,8 +271,8 @@ func (a *c19Alias) doStep() bool {
 				appended = true
 				a.st.Appended++
 				resR, _ := c19RatOf(&red)
-				if fn, msg := c19FollowUps(a.pool[len(a.pool)-1].d, resR); fn != "" {
-					a.report("C19/followup-"+fn+"/panic", fmt.Sprintf("%s on the result of Reduce panicked: %s", fn, msg))
+				for _, v := range c19FollowUps(a.pool[len(a.pool)-1].d, resR) {
+					a.report(v.class, "on the result of Reduce: "+v.detail)
 				}
 			}
 		case c19USdkIntTrim:
